@@ -19,6 +19,8 @@ enum Holder {
     Misaligned { value: u64 },
     BelowSp { value: u64 },
     IpInMapping,
+    /// blocked in a system call whose return address is the first byte after the r-x mapping
+    IpAtEnd,
 }
 
 fn has_principal_error(soft: &serde_json::Value) -> bool {
@@ -27,7 +29,7 @@ fn has_principal_error(soft: &serde_json::Value) -> bool {
 
 pub fn run(rep: &mut Report, thorough: bool) {
     crate::util::install_quiet_panic_hook();
-    rep.rule = "targets of 1..24 sentinel threads on zero-filled stacks, each a {pointer holder at the first / last / a random aligned slot above sp with value in {start-1,start,mid,end-1,end,end+1}, misaligned holder, holder below sp, thread spinning inside the principal mapping, nothing}; principal address in {anonymous r-x mapping, file-backed ELF group, hole, inaccessible reservation directly behind the ELF group, 0, MAX}; with and without crash context. Oracle: included <=> ip in [start,end) or an aligned word at/above sp in the checker-read stack in [start,end); records and contexts always present; soft error when required. distinct = hash(holders, principal choice, ctx); non-trivial = Ok dump with >= 1 sentinel judged".into();
+    rep.rule = "targets of 1..24 sentinel threads on zero-filled stacks, each a {pointer holder at the first / last / a random aligned slot above sp with value in {start-1,start,mid,end-1,end,end+1}, misaligned holder, holder below sp, thread spinning inside the principal mapping, thread whose instruction pointer is the first byte after it, nothing}; principal address in {anonymous r-x mapping, file-backed ELF group, hole, inaccessible reservation directly behind the ELF group, 0, MAX}; with and without crash context. Oracle: included <=> ip in [start,end) or an aligned word at/above sp in the checker-read stack in [start,end); records and contexts always present; soft error when required. distinct = hash(holders, principal choice, ctx); non-trivial = Ok dump with >= 1 sentinel judged".into();
     let mut rng = Rng::new(rep.seed.wrapping_mul(202_021));
     let ntargets = if thorough { 4000 } else { 14 };
     for ti in 0..ntargets {
@@ -37,6 +39,11 @@ pub fn run(rep: &mut Report, thorough: bool) {
         // principal candidates
         let rx = b.anon(3, 5, 5, Fill::Zero);
         let (rxa, rxl) = (b.spec.regions[rx].addr, b.spec.regions[rx].len);
+        // a second executable mapping directly behind it: a thread can then sit with its
+        // instruction pointer on the first byte AFTER the principal mapping
+        // (rwx, so that the kernel keeps it a separate mapping instead of merging the two)
+        let rx2 = b.anon(1, 0, 7, Fill::Zero);
+        assert_eq!(b.spec.regions[rx2].addr, rxa + rxl);
         let mut files = Vec::new();
         let espec = ElfSpec::random(&mut rng);
         scen::add_elf_file(&mut b, &mut rng, &dir, "libprincipal.so", espec, false, &mut files);
@@ -66,7 +73,8 @@ pub fn run(rep: &mut Report, thorough: bool) {
             let sp_aligned_off = (sp_off + 7) & !7;
             let room = pages * PAGE - sp_aligned_off;
             let values = [lo.wrapping_sub(1), lo, lo + (hi - lo) / 2, hi - 1, hi, hi + 1, lo + 8];
-            let h = match (k + ti as usize) % 7 {
+            let h = match (k + ti as usize) % 8 {
+                7 => Holder::IpAtEnd,
                 0 => Holder::None,
                 1 => Holder::Slot { above_sp: 0, value: *rng.pick(&values) },
                 2 => Holder::Slot { above_sp: room - 8, value: *rng.pick(&values) },
@@ -87,9 +95,26 @@ pub fn run(rep: &mut Report, thorough: bool) {
                 _ => {}
             }
             let shape = StackShape { pages, sp_offset: sp_off as i64, fill_pattern: false, slots, ..Default::default() };
-            let stub_at = if matches!(h, Holder::IpInMapping) { Some((rx, rxa + 64 + 32 * k as u64)) } else { None };
-            let mode = if k % 5 == 1 { Mode::Spin } else { Mode::Pause };
+            let at_end = matches!(h, Holder::IpAtEnd) && !b.sentinels.iter().any(|s| s.stub_addr == rxa + rxl - STUB_PAUSE_AFTER_SYSCALL);
+            let stub_at = if matches!(h, Holder::IpInMapping) {
+                Some((rx, rxa + 64 + 32 * k as u64))
+            } else if at_end {
+                // the pause stub straddles the seam: `syscall` ends exactly at the end of the r-x mapping
+                Some((rx, rxa + rxl - STUB_PAUSE_AFTER_SYSCALL))
+            } else {
+                None
+            };
+            let mode = if at_end { Mode::Pause } else if k % 5 == 1 { Mode::Spin } else { Mode::Pause };
             b.sentinel(&mut rng, mode, &shape, None, stub_at);
+            if at_end {
+                // split the poked code between the two mappings
+                let addr = rxa + rxl - STUB_PAUSE_AFTER_SYSCALL;
+                let pi = b.spec.regions[rx].pokes.iter().position(|(a, _)| *a == addr).unwrap();
+                let code = b.spec.regions[rx].pokes[pi].1.clone();
+                b.spec.regions[rx].pokes[pi].1.truncate(STUB_PAUSE_AFTER_SYSCALL as usize);
+                b.spec.regions[rx2].pokes.push((rxa + rxl, code[STUB_PAUSE_AFTER_SYSCALL as usize..].to_vec()));
+                rep.count("threads_with_ip_one_past_the_end_of_a_mapping", 1);
+            }
             holders.push(h);
         }
         let t = match Target::spawn(b.spec.clone(), &b.opts) {
@@ -100,17 +125,29 @@ pub fn run(rep: &mut Report, thorough: bool) {
             }
         };
         let lines = t.maps();
+        // the checker's idea of the principal mapping must be the kernel's
+        if let (Some(p), Some((a, e))) = (principal, range) {
+            let ok = lines.iter().any(|l| l.start <= p && p < l.end && ((l.start == a && l.end == e) || l.name.contains('/')));
+            if !ok {
+                rep.inconclusive(format!("principal mapping [{a:#x},{e:#x}) is not a line of the target's memory map"));
+                continue;
+            }
+        }
         for with_ctx in [false, true] {
             let mut o = DumpOpts::new(t.pid, t.pid);
             o.skip_unreferenced = true;
             o.principal = principal;
             let mut crash: Option<(i32, u64, u64)> = None; // tid, sp, ip
             if with_ctx {
-                let ci = rng.usize_below(n);
+                // crash registers: the ip cycles through {the thread's own, first byte, last byte,
+                // one past the end, one before the start, elsewhere}; at the two ends the crash
+                // thread is preferably one that holds no pointer, so that the ip alone decides
+                let ipk = ti as usize % 6;
+                let plain: Vec<usize> = (0..n).filter(|&i| matches!(holders[i], Holder::None | Holder::Misaligned { .. } | Holder::BelowSp { .. })).collect();
+                let ci = if (ipk == 2 || ipk == 3) && !plain.is_empty() { *rng.pick(&plain) } else { rng.usize_below(n) };
                 let s = &b.sentinels[ci];
                 let tid = t.manifest.tids[s.index];
-                // crash registers: either the thread's own, or an ip inside / outside the mapping
-                let ip = *rng.pick(&[s.stub_addr + 1, lo, hi - 1, hi, lo.wrapping_sub(1), rxa + 2 * PAGE + 5]);
+                let ip = [s.stub_addr + 1, lo, hi - 1, hi, lo.wrapping_sub(1), rxa + 2 * PAGE + 5][ipk];
                 let sp = s.regs.gpr[RSP];
                 let mut crng = rng.fork(9);
                 o.blamed = tid;
@@ -210,4 +247,5 @@ pub fn run(rep: &mut Report, thorough: bool) {
     rep.require("referencing_threads", 5);
     rep.require("non_referencing_threads", 5);
     rep.require("soft_error_required_cases", 2);
+    rep.require("threads_with_ip_one_past_the_end_of_a_mapping", 2);
 }
